@@ -239,13 +239,15 @@ func phaseOf(st *rhplab.Stream) string {
 	if st == nil {
 		return "no-stream"
 	}
-	runs := st.Runs()
-	if len(runs) <= 1 {
-		return "request-cut"
+	l, n := st.Failure()
+	if l < 0 {
+		// no I/O failed: the host ended the exchange on its own
+		return "host-ended"
 	}
-	l := len(runs) - 1
-	some := runs[l].N > 0
+	some := n > 0
 	switch {
+	case l == 0:
+		return "request-cut"
 	case l == 1 && !some:
 		return "before-host-msg-1"
 	case l == 1:
